@@ -212,15 +212,38 @@ def distributeDepth (h : Int) (p : RewardPeriod) (blockDist : Nat) (pools : List
       let tuples ← rewardTuples p total blockDist pools1 blockDist
       applyRewards p.distribute pools1 tuples
 
-/-- repair F10 (abci.go): on the first block of a period the entitlement accumulated under an
-    earlier period is dropped -/
-def accuAtStart (h : Int) (p : RewardPeriod) (accu : Nat) : Nat :=
-  if wrapU64 h = p.start then 0 else accu
+/-- rewards.go `RewardPeriodAt`: the first period of the list covering the height (no `mod` fix-up) -/
+def rewardAt (height : Nat) : List RewardPeriod → Option RewardPeriod
+  | [] => none
+  | p :: ps => if height ≥ p.start ∧ height ≤ p.end_ then some p else rewardAt height ps
+
+def modNorm (p : RewardPeriod) : Nat := if p.mod = 0 then 1 else p.mod
+
+/-- rewards.go `SameRewardPeriod` on two non-nil periods -/
+def samePeriod (a b : RewardPeriod) : Bool :=
+  (a.alloc.isNone == b.alloc.isNone) && decide (a.start = b.start) && decide (a.end_ = b.end_) &&
+  decide (modNorm a = modNorm b) && (a.alloc.isNone || decide (a.alloc = b.alloc))
+
+/-- … on possibly nil periods: two nils are the same -/
+def samePeriodOpt : Option RewardPeriod → Option RewardPeriod → Bool
+  | none, none => true
+  | some a, some b => samePeriod a b
+  | _, _ => false
+
+/-- `uint64(ctx.BlockHeight() - 1)` -/
+def prevHeight (h : Int) : Nat := wrapU64 (wrapI64 (h - 1))
+
+/-- repairs F10 / F27 (abci.go): the accumulated entitlement is kept only if the current period was
+    also the current one in the previous block -/
+def accuKept (h : Int) (periods : List RewardPeriod) (p : RewardPeriod) (accu : Nat) : Nat :=
+  match rewardAt (prevHeight h) periods with
+  | none => 0
+  | some q => if samePeriod q p then accu else 0
 
 def rewardsWith (h : Int) (p : RewardPeriod) (alloc accu : Nat) (pools : List EPool) : M (Nat × List EPool) := do
   let due ← isDistBlock h p.start p.mod
   let cur ← blockDistribution p alloc
-  let bd ← Uint.add (accuAtStart h p accu) cur
+  let bd ← Uint.add accu cur
   if due then do
     let pools' ← distributeDepth h p bd pools
     pure (0, pools')
@@ -233,7 +256,7 @@ def rewardsRun (h : Int) (s : EState) (pools : List EPool) : M (Nat × List EPoo
   | some p =>
     match p.alloc with
     | none => .error .other                      -- nil *sdk.Uint dereference
-    | some a => if a = 0 then .ok (s.accu, pools) else rewardsWith h p a s.accu pools
+    | some a => if a = 0 then .ok (s.accu, pools) else rewardsWith h p a (accuKept h s.rew p s.accu) pools
 
 /-- x/clp/abci.go `EndBlocker` -/
 def endBlock (s : EState) (h : Int) : M EState := do
